@@ -208,7 +208,8 @@ Definition step_core (c : cfg) (s : state) : option state :=
       end
   | CProc => Some (set_delivered (set_core s CAtBlk) true)   (* ProcessSegments; getNextBlock *)
   | CAtBlk => Some (set_core s CAtSel)
-  | CAtRet => Some (set_core s CAtRD)
+  | CAtRet =>                                    (* return: the deferred function stops the writing (fix) ... *)
+      Some (set_core (if c_fixed c then set_writing s false else s) CAtRD)
   | CAtRD => Some (set_core s CDoRD)
   | CDoRD =>                                     (* deferred RunDoneDeactivate *)
       if lock s then None else Some (set_core (set_rd (set_sst s Inactive) (pred (rd s))) CDone)
